@@ -235,7 +235,7 @@ def handle_lists(ctx, rng, tabs, n):
             hs.append(rng.choice(hs))
         rng.shuffle(hs)
         out.append(hs)
-    return out, {h: k for k, v in pools.items() for h in v}
+    return out, {h: k for k, v in reversed(list(pools.items())) for h in v}   # first pool (mds, ctx-descr, …) names the kind
 
 
 def corpus_entries():
